@@ -14,6 +14,20 @@ legs: MC   TLC: Parse(Print(s, style)) = Abs(s) for every expression spine (ever
       C2S  mutated token sequences and arbitrary texts are parsed by both parsers, one ndjson event per text, and
            TLC (Trace_Parser) judges every event: shipped = derived always, = Parse(tokens) whenever the text comes
            from tokens of the model's alphabet.
+
+Sessions (spec/ParserSession.tla): parsing is a function of the TEXT -- not of what the process did before.  The legs
+above give every text to a parser exactly once and never run a statement; the session part quantifies over call
+histories: the same text parsed again, executed with parameters in between (Connection.execute, Cursor.execute,
+executemany, execution of a parsed tree; the compiler numbers positional placeholders of the tree it is given in
+place), on several connections of one process, other texts interleaved.
+      MC   ParserSession: every parsing call of every history returns Required(tokens) and no tree handed out
+           changes afterwards, for a parser that retains nothing and for one that retains trees and hands out copies;
+           one that hands out the retained tree itself is refuted by TLC (both invariants).
+      S2C  TLC simulates sessions over a table of texts with placeholders of every kind in every statement kind; each
+           is run on the real code in one process (seeded layouts; the text of a session is byte-identical from call to
+           call) and every parse result, and every tree still held at the end, is compared with the spec's.
+      C2S  random sessions over the generated token sequences above are run the same way, one ndjson line per call,
+           and Trace_ParserSession judges every line, following the history in its state.
 """
 import hashlib
 import json
@@ -591,6 +605,324 @@ def c2s(ctx, parsers, cases, n_mut, n_arb):
 
 
 # ---------------------------------------------------------------------------------------------------------------------
+# sessions: parsing is a function of the text, whatever the process did before (spec/ParserSession.tla)
+# ---------------------------------------------------------------------------------------------------------------------
+EXEC_HOWS = ('execute', 'cursor', 'many', 'tree')
+PARSE_HOWS = ('parse', 'cparse')
+
+
+def _project(node):
+    try:
+        return {'ok': True, 'ast': B.stmt_to_spec(node)}
+    except B.Odd as ex:
+        return {'ok': True, 'odd': str(ex)[:300]}
+
+
+def run_session(sess):
+    """one session in this process: sess = {texts: [str], params: [parameters], calls: [(how, text number, connection)]}.
+    Returns ([observation per call], [(call number, present projection of the tree that call handed out)])"""
+    import beanquery
+    import beanquery.query_env  # noqa: F401
+    P = _W['P']
+    conns = {}
+
+    def conn(c):
+        if c not in conns:
+            conns[c] = beanquery.Connection()
+        return conns[c]
+    obs = []
+    held = []
+    for k, (how, t, c) in enumerate(sess['calls']):
+        text = sess['texts'][t]
+        if how in PARSE_HOWS:
+            try:
+                node = P.parse(text) if how == 'parse' else conn(c).parse(text)
+            except P.ParseError as ex:
+                obs.append({'ok': False, 'why': 'reject', 'pos': getattr(ex.parseinfo, 'pos', -1)})
+            except Exception as ex:  # noqa
+                obs.append({'ok': False, 'why': 'exc:' + type(ex).__name__, 'pos': -1})
+            else:
+                obs.append(_project(node))
+                held.append((k, node))
+            continue
+        params = sess['params'][t]
+        msg = ''
+        try:
+            cn = conn(c)
+            if how == 'execute':
+                cn.execute(text, params)
+            elif how == 'cursor':
+                cn.cursor().execute(text, params)
+            elif how == 'many':
+                cn.cursor().executemany(text, [params, params])
+            else:
+                cn.execute(cn.parse(text), params)
+            cls = 'ok'
+        except Exception as ex:  # noqa   (the outcome of an execution is not C06's business: it is history)
+            cls = type(ex).__name__
+            msg = str(ex)[:60]
+        # refused before the compiler looked at the tree: syntax, kind / number of the parameters
+        early = cls in ('ParseError', 'TypeError') or (cls == 'ProgrammingError' and (
+            'placeholders but' in msg or 'cannot be mixed' in msg or 'parameter missing' in msg))
+        obs.append({'exec': cls, 'reached': not early})
+    return obs, [(k, _project(node)) for k, node in held]
+
+
+def _work_sessions(batch):
+    return [(sid, run_session(sess)) for sid, sess in batch]
+
+
+def ph_kind(tokens):
+    pos = any(t['t'] == 'p' and t['s'] == '%s' for t in tokens)
+    named = any(t['t'] == 'p' and t['s'] == '%(' for t in tokens)
+    return 'mixed' if pos and named else 'positional' if pos else 'named' if named else 'none'
+
+
+def params_for(tokens):
+    """as many parameters as the text has placeholders (a sequence when any is positional)"""
+    kind = ph_kind(tokens)
+    if kind == 'none':
+        return None
+    if kind == 'named':
+        return {tokens[i + 1]['s']: 7 for i, t in enumerate(tokens[:-1]) if t['t'] == 'p' and t['s'] == '%(' and tokens[i + 1]['t'] == 'id'}
+    return tuple(41 + i for i, t in enumerate(x for x in tokens if x['t'] == 'p' and x['s'] == '%s'))
+
+
+_SEEN_TEXTS = set()
+
+
+def session_texts(tokens_by_t, rng, sid):
+    """one text per token sequence, the same from call to call; no two sessions of a run share a text (a replay of
+    one session in a fresh process then sees the history the run saw)"""
+    texts = {}
+    for t, ts in tokens_by_t.items():
+        text = B.layout(ts, rng)
+        if text in _SEEN_TEXTS or text in texts.values() or rng.random() < 0.3:
+            text += ' ; %d.%d' % (sid, t)
+        _SEEN_TEXTS.add(text)
+        texts[t] = text
+    return texts
+
+
+def same(o, e):
+    """observation of a parsing call against [ok, ast] of the specification"""
+    if 'odd' in o or o['ok'] != e['ok']:
+        return False
+    return not e['ok'] or o['ast'] == e['ast']
+
+
+def gen_sessions(ctx):
+    """TLC simulates sessions; one line per session (with every successor of the last but one state: a few per trace
+    are kept)"""
+    res = ctx.tlc('Gen_ParserSession', 'Gen_ParserSession.cfg', leg='GEN', workers=2, simulate='num=%d' % ctx.pick(30, 250),
+                  depth=8, seed=ctx.seed, timeout=ctx.pick(300, 1500), jvm=JVM)
+    if res.violated:
+        raise core.MachineryError('generator Gen_ParserSession.cfg: %s' % res.violated)
+    rng = random.Random(ctx.seed + 7)
+    groups = {}
+    for p in res.printed:
+        if isinstance(p, dict) and 'calls' in p:
+            k = json.dumps([(c['op'], c['t'], c['c']) for c in p['calls'][:-1]])
+            groups.setdefault(k, []).append(p)
+    out = []
+    seen = set()
+    for k in sorted(groups):
+        g = groups[k]
+        rng.shuffle(g)
+        for p in g[:2]:
+            kk = json.dumps([(c['op'], c['t'], c['c']) for c in p['calls']])
+            if kk not in seen:
+                seen.add(kk)
+                out.append(p)
+    ctx.log('generator Gen_ParserSession.cfg: %d lines, %d traces, %d sessions kept' % (len(res.printed), len(groups), len(out)))
+    res.printed = []
+    return out
+
+
+def history_of(calls, k, reached):
+    """the kind of history call k has (naming only: the oracle is the specification)"""
+    how, t, c = calls[k]
+    if any(calls[j][1] == t and calls[j][0] in EXEC_HOWS and reached[j] for j in range(k)):
+        return 'parse-after-execute'
+    if any(calls[j][1] == t and calls[j][0] in PARSE_HOWS for j in range(k)):
+        return 'parse-again'
+    return 'first-parse'
+
+
+def report_session(ctx, leg, sess, tokens_by_t, k, clause, expected, observed, all_expected):
+    how, t, c = sess['calls'][k]
+    case = {'kind': 'session', 'session': sess, 'call': k, 'text': sess['texts'][t], 'tokens': tokens_by_t[t],
+            'expected_by_call': all_expected}
+    return ctx.violation('history:%s:%s' % (clause, ph_kind(tokens_by_t[t])),
+                         'parsing a text gives something else than the text requires after this history of calls (%s)' % clause,
+                         case, leg, describe(expected), describe(observed) if 'odd' not in observed else observed['odd'])
+
+
+def sessions_s2c(ctx, parsers, gen):
+    rng = random.Random(ctx.seed + 11)
+    items = []
+    meta = {}
+    for sid, p in enumerate(gen):
+        toks = {t - 1: p['texts'][t - 1] for t in p['pool']}
+        texts = session_texts(toks, random.Random('%d/s2c/%d' % (ctx.seed, sid)), sid)
+        calls = [(c['op'] if c['op'] in PARSE_HOWS else rng.choice(EXEC_HOWS), c['t'] - 1, c['c']) for c in p['calls']]
+        nt = len(p['texts'])
+        sess = {'texts': [texts.get(t, '') for t in range(nt)], 'params': [params_for(toks[t]) if t in toks else None for t in range(nt)],
+                'calls': calls}
+        expected = [{'ok': c['ok'], 'ast': c['ast']} if c['op'] in PARSE_HOWS else None for c in p['calls']]
+        items.append((sid, sess))
+        meta[sid] = (sess, toks, expected)
+    t0 = time.time()
+    res = {}
+    for out in parsers.pool.imap_unordered(_work_sessions, [items[i:i + 4] for i in range(0, len(items), 4)]):
+        res.update(out)
+    wall = time.time() - t0
+    ncalls = nparse = nafter = bad = 0
+    for sid in sorted(res):
+        obs, held = res[sid]
+        sess, toks, expected = meta[sid]
+        calls = sess['calls']
+        reached = [bool(o.get('reached')) for o in obs]
+        ncalls += len(calls)
+        for k, o in enumerate(obs):
+            if expected[k] is None:
+                continue
+            nparse += 1
+            h = history_of(calls, k, reached)
+            nafter += h == 'parse-after-execute' and ph_kind(toks[calls[k][1]]) == 'positional'
+            if not same(o, expected[k]):
+                bad += 1
+                report_session(ctx, 'S2C', sess, toks, k, h, expected[k], o, expected)
+        for k, o in held:
+            nparse += 1
+            if not same(o, expected[k]):
+                bad += 1
+                report_session(ctx, 'S2C', sess, toks, k, 'held-tree-changed', expected[k], o, expected)
+        ctx.case('session:' + json.dumps([sess['texts'], calls]), True)
+    ctx.traces += nparse
+    ctx.evaluations += max(0, nparse - len(res))
+    if res:
+        sess = meta[0][0]
+        ctx.sample({'leg': 'S2C', 'fam': 'session', 'texts': [x[:80] for x in sess['texts'] if x], 'calls': sess['calls']})
+    ctx.leg('S2C', sessions=len(res), session_calls=ncalls, session_parse_results_compared=nparse,
+            session_parses_after_execution_of_same_positional_text=nafter, session_disagreements=bad, session_wall_s=round(wall, 1))
+    ctx.log('S2C sessions: %d sessions, %d calls, %d parse results compared (%d after an execution of the same text with '
+            'positional placeholders) in %.1fs; %d disagreements' % (len(res), ncalls, nparse, nafter, wall, bad))
+    if nafter == 0:
+        raise core.MachineryError('vacuity: no generated session parses a text after executing it')
+
+
+def sessions_c2s(ctx, parsers, cases, nsess):
+    """random sessions over the generated token sequences; returns a function that waits for TLC's verdicts"""
+    rng = random.Random(ctx.seed + 13)
+    pools = {}
+    for c in cases:
+        if c['ok'] and len(c['tokens']) <= 30 and c['fam'] in ('spine', 'stmt', 'lit', 'corner', 'matrix'):
+            pools.setdefault(ph_kind(c['tokens']), []).append(c)
+    rejected = [c for c in cases if not c['ok'] and 2 <= len(c['tokens']) <= 20 and c['fam'] in ('without', 'chain', 'corner')]
+    for k in pools:
+        pools[k].sort(key=case_key)
+    if not pools.get('positional'):
+        raise core.MachineryError('vacuity: no generated statement has positional placeholders')
+    items = []
+    meta = {}
+    for sid in range(nsess):
+        kinds = ['positional'] + [rng.choice(['positional', 'positional', 'named', 'mixed', 'none', 'none', 'rejected'])
+                                  for _ in range(rng.choice([0, 1, 1, 2]))]
+        toks = {}
+        for t, kind in enumerate(kinds):
+            src = rejected if kind == 'rejected' else pools.get(kind) or pools['positional']
+            toks[t] = src[rng.randrange(len(src))]['tokens']
+        texts = session_texts(toks, random.Random('%d/c2s/%d' % (ctx.seed, sid)), 100000 + sid)
+        calls = []
+        for _ in range(rng.randint(4, 9)):
+            how = rng.choice(PARSE_HOWS + PARSE_HOWS + EXEC_HOWS)
+            calls.append((how, rng.randrange(len(kinds)), 0 if how == 'parse' else rng.choice([1, 1, 2, 3])))
+        sess = {'texts': [texts[t] for t in range(len(kinds))], 'params': [params_for(toks[t]) for t in range(len(kinds))], 'calls': calls}
+        items.append((sid, sess))
+        meta[sid] = (sess, toks)
+    t0 = time.time()
+    res = {}
+    for out in parsers.pool.imap_unordered(_work_sessions, [items[i:i + 4] for i in range(0, len(items), 4)]):
+        res.update(out)
+    wall = time.time() - t0
+    path = ctx.path('session_trace.ndjson')
+    lines = []          # (sid, call number, observation)
+    none = {'k': 'none'}
+    npos = 0
+
+    def enc(o):
+        if 'odd' in o:
+            return {'k': 'odd', 'what': o['odd'][:80]}
+        return o['ast'] if o['ok'] else none
+    with open(path, 'w') as f:
+        for sid in sorted(res):
+            obs, held = res[sid]
+            sess, toks = meta[sid]
+            reached = [bool(o.get('reached')) for o in obs]
+            for k, o in enumerate(obs):
+                how, t, c = sess['calls'][k]
+                if how in PARSE_HOWS:
+                    npos += ph_kind(toks[t]) == 'positional' and history_of(sess['calls'], k, reached) == 'parse-after-execute'
+                    ev = {'op': how, 'tokens': toks[t], 'ok': o['ok'], 'ast': enc(o)}
+                else:
+                    ev = {'op': 'execute', 'tokens': [], 'ok': o['reached'], 'ast': none}
+                ev.update(id=len(lines), sid=sid, t=t, c=c)
+                f.write(json.dumps(ev) + '\n')
+                lines.append((sid, k, o))
+            for k, o in held:
+                how, t, c = sess['calls'][k]
+                f.write(json.dumps({'id': len(lines), 'sid': sid, 'op': 'held', 't': t, 'c': c, 'tokens': toks[t], 'ok': o['ok'], 'ast': enc(o)}) + '\n')
+                lines.append((sid, k, o))
+    ctx.log('C2S sessions: %d sessions, %d lines recorded in %.1fs (%d parses after an execution of the same text with positional '
+            'placeholders)' % (len(res), len(lines), wall, npos))
+    if npos == 0:
+        raise core.MachineryError('vacuity: no recorded session parses a text with positional placeholders after executing it')
+    box = {}
+
+    def validate():
+        try:
+            box['res'] = ctx.tlc('Trace_ParserSession', 'Trace_ParserSession.cfg', leg='C2S', workers=1, env={'TRACE_FILE': path},
+                                 jvm=JVM, timeout=ctx.pick(600, 3000))
+        except BaseException as ex:  # noqa
+            box['error'] = ex
+    th = threading.Thread(target=validate)
+    th.start()
+
+    def finish():
+        th.join()
+        if 'error' in box:
+            raise box['error']
+        r = box['res']
+        if r.violated:
+            raise core.MachineryError('Trace_ParserSession violated %s' % r.violated)
+        if r.post_failed or r.depth - 1 != len(lines):
+            raise core.MachineryError('session trace not consumed: depth %d, lines %d (%s)' % (r.depth, len(lines), r.errors[:2]))
+        summ = [p for p in r.printed if isinstance(p, dict) and p.get('verdict') == 'summary']
+        if len(summ) != 1 or summ[0]['lines'] != len(lines):
+            raise core.MachineryError('session trace: no summary line')
+        nrej = 0
+        for p in r.printed:
+            if isinstance(p, dict) and p.get('verdict') == 'rejected':
+                nrej += 1
+                sid, k, o = lines[p['id']]
+                sess, toks = meta[sid]
+                report_session(ctx, 'C2S', sess, toks, k, p['clause'], p['spec'], o, None)
+        ctx.skipped += summ[0]['skipped']
+        ctx.traces += summ[0]['judged']
+        for sid in res:
+            ctx.case('session:' + json.dumps([meta[sid][0]['texts'], meta[sid][0]['calls']]), True)
+        ctx.evaluations += max(0, summ[0]['judged'] - len(res))
+        ctx.leg('C2S', sessions=len(res), session_lines=len(lines), session_lines_judged=summ[0]['judged'],
+                session_lines_skipped_token_splitting=summ[0]['skipped'], session_lines_judged_after_execution_of_same_text=summ[0]['after_execute'],
+                session_parses_after_execution_of_same_positional_text=npos,
+                session_rejected_lines=nrej, session_wall_s=round(wall, 1))
+        if summ[0]['judged'] == 0 or summ[0]['after_execute'] == 0:
+            raise core.MachineryError('vacuity: no session line was judged after an execution of the same text (%r)' % (summ[0],))
+    return finish
+
+
+# ---------------------------------------------------------------------------------------------------------------------
 def run(ctx):
     ctx.rule = ('one evaluation = one text parsed by both parsers and compared with the specification; distinct = distinct '
                 'token sequences emitted by TLC (spines in every expression slot, clause combinations, literal forms, chains, '
@@ -625,11 +957,25 @@ def run(ctx):
         for cfg, violated, beh in mc['violated']:
             ctx.violation('spec:' + ','.join(violated), 'TLC: printing and parsing do not invert each other in the grammar model',
                           {'cfg': cfg, 'behaviour': beh}, 'MC')
-    mc_thread = None
+    # the session model is small: checked beside the grammar model
+    def model_check_sessions():
+        try:
+            for cfg in ('MC_ParserSession.cfg', 'MC_ParserSession_copy.cfg'):
+                res = ctx.tlc('MC_ParserSession', cfg, leg='MC', timeout=ctx.pick(600, 1800), jvm=JVM, workers=4)
+                if res.violated:
+                    mc['violated'].append((cfg, res.violated, res.behaviour[:4000]))
+            ctx.tlc('MC_ParserSession', 'MC_ParserSession_nv_memo.cfg', leg='MC-nonvacuity', expect_violation='HistoryFree', workers=2, jvm=JVM)
+            ctx.tlc('MC_ParserSession', 'MC_ParserSession_nv_held.cfg', leg='MC-nonvacuity', expect_violation='HeldUnchanged', workers=2, jvm=JVM)
+        except BaseException as ex:  # noqa  (re-raised in the main thread)
+            mc['error'] = mc['error'] or ex
+    mc_thread = mcs_thread = None
     if not only or 'MC' in only:
         mc_thread = threading.Thread(target=model_check)
         mc_thread.start()
+        mcs_thread = threading.Thread(target=model_check_sessions)
+        mcs_thread.start()
     if only and not (only & {'S2C', 'C2S'}):
+        mcs_thread.join()
         mc_join(mc_thread)
         return
     parsers = Parsers(ctx)
@@ -637,24 +983,81 @@ def run(ctx):
         ctx.extra['generated_parser_identical_to_shipped'] = parsers.identical
         if not parsers.identical:
             ctx.notes.append('beanquery/parser/parser.py is not byte-identical to the TatSu translation of bql.ebnf')
-        cases, fams = gen_cases(ctx)
+        gs = {}
+
+        def gen_s():
+            try:
+                gs['sessions'] = gen_sessions(ctx)
+            except BaseException as ex:  # noqa
+                gs['error'] = ex
+        gs_thread = None
+        if not only or 'S2C' in only:
+            gs_thread = threading.Thread(target=gen_s)
+            gs_thread.start()
+        try:
+            cases, fams = gen_cases(ctx)
+        finally:
+            if gs_thread is not None:
+                gs_thread.join()
+        if 'error' in gs:
+            raise gs['error']
         ctx.leg('GEN', families=fams)
         if not only or 'S2C' in only:
             s2c(ctx, parsers, cases, int(os.environ.get('VERIF_C06_TOKENS', ctx.pick(170000, 1200000))))
+            sessions_s2c(ctx, parsers, gs['sessions'])
+        if mcs_thread is not None:
+            mcs_thread.join()
         mc_join(mc_thread)
-        mc_thread = None
+        mc_thread = mcs_thread = None
         if not only or 'C2S' in only:
             scale = float(os.environ.get('VERIF_C06_C2S_SCALE', 1))       # development only
-            c2s(ctx, parsers, cases, int(ctx.pick(2500, 16000) * scale), int(ctx.pick(1000, 6000) * scale))
+            finish_sessions = sessions_c2s(ctx, parsers, cases, max(4, int(ctx.pick(100, 900) * scale)))
+            try:
+                c2s(ctx, parsers, cases, int(ctx.pick(2500, 16000) * scale), int(ctx.pick(1000, 6000) * scale))
+            finally:
+                finish_sessions()
     finally:
         parsers.close()
-        if mc_thread is not None:
-            mc_thread.join()
+        for th in (mc_thread, mcs_thread):
+            if th is not None:
+                th.join()
     ctx.exhaustive = False
+
+
+def replay_session(rep):
+    """run the recorded session again in this (fresh) process; the parse results it had to give are in the case"""
+    case = rep['case']
+    _init_worker(core.REPO, derive_source(core.REPO))
+    sess = case['session']
+    sess['calls'] = [tuple(c) for c in sess['calls']]
+    sess['params'] = [tuple(p) if isinstance(p, list) else p for p in sess['params']]
+    obs, held = run_session(sess)
+    exp = case.get('expected_by_call') or [None] * len(obs)
+    k0 = case['call']
+    if exp[k0] is None and isinstance(rep.get('expected'), dict) and 'ok' in rep['expected']:
+        exp[k0] = {'ok': rep['expected']['ok'], 'ast': rep['expected'].get('ast')}
+    bad = False
+    for i, t in enumerate(sess['texts']):
+        print('text %d  :' % i, repr(t))
+    for k, (o, c) in enumerate(zip(obs, sess['calls'])):
+        note = ''
+        if exp[k] is not None and c[0] in PARSE_HOWS:
+            ok = same(o, exp[k])
+            bad = bad or not ok
+            note = 'as required' if ok else 'DIFFERS from %s' % json.dumps(exp[k])[:400]
+        print('call %d  : %-8s text %d conn %d -> %s %s' % (k, c[0], c[1], c[2], json.dumps(o if 'exec' in o or 'odd' in o else describe(o))[:300], note))
+    for k, o in held:
+        if exp[k] is not None and not same(o, exp[k]):
+            bad = True
+            print('held    : the tree handed out by call %d is now %s' % (k, json.dumps(o)[:300]))
+    print('replay:', 'MISMATCH reproduced' if bad else 'no mismatch')
+    return 1 if bad else 0
 
 
 def replay(ctx, rep):
     case = rep['case']
+    if case.get('kind') == 'session':
+        return replay_session(rep)
     if 'text' not in case:
         print('replay: case kind not replayable standalone; re-run the check')
         return 2
